@@ -59,6 +59,7 @@ type caseT struct {
 	Inputs    []svc.InputSpec `json:"inputs"`
 	Meta      []turnMeta      `json:"meta"`
 	CancelAt  int             `json:"cancel_at"`
+	CancelVal string          `json:"cancel_value"` // value of the vgi_rpc.cancel key; the signal is its presence
 	ExtInput  int             `json:"ext_input_at"` // turn whose input is sent as a pointer batch (-1 none)
 	Instances int             `json:"instances"`
 	Cache     int             `json:"cache_entries"`
@@ -157,6 +158,8 @@ func genCase(r *mon.Run, i int) caseT {
 		o.FailAct = finishActs[round%len(finishActs)]
 	case "cancel", "cancel-nohook":
 		c.CancelAt = []int{0, 1, 2, 3, 5}[(round+rng.IntN(5))%5]
+		// cancellation is signalled by the PRESENCE of the key, whatever its value
+		c.CancelVal = []string{"true", "1", "", "0", "false", "cancel", " "}[rng.IntN(7)]
 		if c.Producer {
 			// a producer is cancelled on its n-th continuation (n >= 1): it must still be running then
 			if c.CancelAt == 0 {
@@ -204,11 +207,11 @@ func subst(in [][2]string, cursor, call string) [][2]string {
 
 // sentPairs is the request batch's metadata as the reference client writes it
 // (wire.Turn.Encode): Before, stream_state, call_state, [cancel], After.
-func sentPairs(m turnMeta, cursor, call string, cancel bool) [][2]string {
+func sentPairs(m turnMeta, cursor, call string, cancel bool, cancelVal string) [][2]string {
 	out := subst(m.Before, cursor, call)
 	out = append(out, [2]string{kStream, cursor}, [2]string{kCall, call})
 	if cancel {
-		out = append(out, [2]string{kCancel, "true"})
+		out = append(out, [2]string{kCancel, cancelVal})
 	}
 	return append(out, subst(m.After, cursor, call)...)
 }
@@ -299,6 +302,7 @@ func (w *checker) run(c caseT) {
 	if c.Producer {
 		// producers: input k is the metadata of continuation k+1; the model needs enough ticks
 		sc.CancelAt = c.CancelAt
+		sc.CancelVal = &c.CancelVal
 		for _, m := range c.Meta {
 			sc.Inputs = append(sc.Inputs, wk.In{Meta: m.Before, MetaAfter: m.After})
 		}
@@ -311,7 +315,7 @@ func (w *checker) run(c caseT) {
 		}
 	} else {
 		for k, in := range c.Inputs {
-			x := wk.In{Cancel: k == c.CancelAt, Meta: c.Meta[k].Before, MetaAfter: c.Meta[k].After}
+			x := wk.In{Cancel: k == c.CancelAt, CancelVal: &c.CancelVal, Meta: c.Meta[k].Before, MetaAfter: c.Meta[k].After}
 			if !x.Cancel {
 				x.Batch = svc.BuildInput(in, c.Variant)
 				defer x.Batch.Release()
@@ -449,6 +453,11 @@ func (w *checker) run(c caseT) {
 	}
 	if res.Ended == "cancelled" {
 		r.Class(map[bool]string{true: "cancel.no-hook", false: "cancel.hook-once"}[c.Script.NoCancel])
+		if c.CancelVal == "" {
+			r.Class("cancel.value-empty")
+		} else if c.CancelVal != "true" {
+			r.Class("cancel.value-other")
+		}
 		switch {
 		case c.CancelAt == 0:
 			r.Class("cancel.turn0")
@@ -479,7 +488,7 @@ func (w *checker) run(c caseT) {
 			}
 			m = c.Meta[k]
 		}
-		sent := sentPairs(m, rp.Presented, res.call, cancel)
+		sent := sentPairs(m, rp.Presented, res.call, cancel, c.CancelVal)
 		wantMeta := stripped(sent)
 		isExt := !c.Producer && !cancel && extURL != "" && rp.Step == fmt.Sprintf("turn %d", c.ExtInput)
 		first := true
@@ -626,7 +635,7 @@ func main() {
 	r.Assume("the cancel hook's CallContext carries no per-batch metadata on any transport, so for OnCancel only the absence of tokens / framework keys is demanded; likewise for an externalised input only absence is demanded (which batch is 'the request's own' is not fixed by the statement)")
 	r.Require("kind.exchange", "kind.dynamic-exchange", "kind.producer", "kind.dynamic-producer",
 		"turn.accepted", "turn.failed", "cancel.response", "cancel.turn0", "cancel.turn1", "cancel.turn>=2", "cancel.hook-once", "cancel.no-hook",
-		"cursor.fresh-checked", "handler.scanned."+wk.EvProbeExchange, "handler.scanned."+wk.EvProbeProduce, "handler.scanned."+wk.EvProbeCancel,
+		"cursor.fresh-checked", "cancel.value-empty", "cancel.value-other", "handler.scanned."+wk.EvProbeExchange, "handler.scanned."+wk.EvProbeProduce, "handler.scanned."+wk.EvProbeCancel,
 		"handler.user-metadata-checked", "handler.ext-input", "meta.duplicate-user-key", "meta.duplicate-framework-key", "meta.near-framework-key", "meta.empty-value",
 		"meta.0-user-keys", "meta.1-4-user-keys", "meta.>=5-user-keys", "instances.1", "instances.2", "cache.0", "cache.-1",
 		"shape.fail-error", "shape.fail-panic", "shape.fail-none", "shape.fail-emit2", "shape.finish-variant", "shape.castable", "shape.ext-input")
